@@ -23,6 +23,7 @@ type childScript struct {
 	Fault     string `json:"fault"` // none | stall | selfkill | exit | closeout  (stall also serves "the parent kills me")
 	Off       int    `json:"off"`   // bytes of answer number `Answered` written before the fault; -1 = none of it
 	Fifo      string `json:"fifo"`
+	Go        string `json:"go"` // FIFO on which the parent says "go" once the answered calls have returned
 	IgnoreInt bool   `json:"ignoreInt"`
 }
 
@@ -83,7 +84,7 @@ func childMain(raw string) {
 			out.Write(append([]byte(`{"jsonrpc":"2.0","id":`+string(m.ID)+`,"result":`+initResult+`}`), '\n'))
 			continue
 		}
-		if acted || sc.Fault == "none" {
+		if sc.Fault == "none" {
 			out.Write(append(echoAnswer(m.ID, m.Params.Arguments.Nonce), '\n'))
 			continue
 		}
@@ -95,6 +96,13 @@ func childMain(raw string) {
 		acted = true
 		for i := 0; i < sc.Answered && i < len(got); i++ {
 			out.Write(append(echoAnswer(got[i].ID, got[i].Params.Arguments.Nonce), '\n'))
+		}
+		if sc.Go != "" {
+			mark("answered")
+			if g, err := os.Open(sc.Go); err == nil {
+				bufio.NewReader(g).ReadString('\n')
+				g.Close()
+			}
 		}
 		if sc.Answered < len(got) && sc.Off >= 0 {
 			a := append(echoAnswer(got[sc.Answered].ID, got[sc.Answered].Params.Arguments.Nonce), '\n')
